@@ -492,6 +492,24 @@ def doc_counts(i):
     return {90: nb, 91: len(list(root))}
 
 
+_LIVE_LEX = None
+
+
+def live_callee_lexical() -> bool:
+    """TRANSLATOR STEP: which callee-dict discipline does the live `_InlineFunction.__call__` implement?  Probed
+    with the F05c witness on the real code (never cached across runs): XPST0008 = the body sees its closure only
+    (branch fix-c05c, model flag `calleeLexical`), 5 = caller's variables visible (finding F05c)."""
+    global _LIVE_LEX
+    if _LIVE_LEX is None:
+        import elementpath
+        import xml.etree.ElementTree as ET
+        from elementpath.xpath31 import XPath31Parser
+        r = guarded(lambda: elementpath.select(ET.XML('<a/>'), 'let $f := function(){$y} return let $y := 5 return $f()',
+                                               parser=XPath31Parser))
+        _LIVE_LEX = (r == 'ERR:unbound')
+    return _LIVE_LEX
+
+
 def line_of(case) -> str:
     heap = ';'.join(f'{l}:{"n" if z is None else z}' for l, z in case['heap']) or '_'
     steps = []
@@ -503,7 +521,7 @@ def line_of(case) -> str:
         for n, c in doc_counts(s['doc']).items():
             kv.append(f'{n}:i{c}')
         steps.append(f'{"n" if s["tz"] is None else s["tz"]}#' + (','.join(kv) or '_'))
-    return f'H={heap} STEPS={"|".join(steps)} E={encode(case["ast"])}'
+    return f'LEX={1 if live_callee_lexical() else 0} H={heap} STEPS={"|".join(steps)} E={encode(case["ast"])}'
 
 
 # ------------------------------------------------------------------------- the real code
@@ -1254,6 +1272,10 @@ def body(run: Run) -> int:
         run.prove(['EPV.Props.C05'], ['EPV.Spec.LexicalSem'])
         return replay(run, run.replay)
     run.prove(['EPV.Props.C05'], ['EPV.Spec.LexicalSem'])
+    lex = live_callee_lexical()
+    run.stats.extra['live_callee_dict'] = ('closure + parameters only (F05c repaired; theorems eval_eq_sem, history_eq_sem apply)'
+                                           if lex else 'caller + closure + parameters (finding F05c; eval_eq_sem_partial applies)')
+    run.notes.append('model flag calleeLexical=%s chosen by probing the live _InlineFunction.__call__ with the F05c witness' % lex)
     try:
         correspond(run)
         cache_histories(run)
